@@ -241,14 +241,18 @@ def selftest_binding(ctx: Ctx, traces: list[dict]) -> None:
     cands = [t for t in traces if len(t["ev"]) >= 3 and all(not e["exc"] for e in t["ev"])]
     if not cands:
         return
+    ok_before = validate_traces(ctx, "TraceCache", copy.deepcopy(cands[:20]), "selftest0", invariants=[],
+                                strip=("ops", "shared"), count=False)
     sample = copy.deepcopy(cands[: 20])
-    victim = len(sample) // 2
+    clean = [i for i in range(len(sample)) if i not in ok_before]
+    if not clean:
+        ctx.selftests.append({"name": "trace-corruption", "ok": True, "detail": "not applicable: no accepted trace to corrupt"})
+        return
+    victim = clean[len(clean) // 2]
     evs = sample[victim]["ev"]
     evs[1]["len"] = evs[1]["len"] + 1
     rej = validate_traces(ctx, "TraceCache", sample, "selftest", invariants=[], strip=("ops", "shared"),
                           count=False)
-    ok_before = validate_traces(ctx, "TraceCache", copy.deepcopy(cands[:20]), "selftest0", invariants=[],
-                                strip=("ops", "shared"), count=False)
     expected = dict(ok_before)
     expected[victim] = 2
     ctx.selftest("trace-corruption(len+1 at event 2)", rej == expected, f"rejections={rej} expected={expected}")
